@@ -26,6 +26,16 @@ mod stubs {
 }
 include!("/verif/harness/common/macros_storage.rs");
 
+impl BlobIndex {
+    /// Stub target for `BlobIndex::seal` in the PLACEMENT-only W1 harnesses (pre-states with earlier entries, where the
+    /// content of the sealed page is not examined): returns a fresh page instead of checksumming and copying the 4 KiB
+    /// index buffer (the copy alone makes CBMC's array post-processing need 20-60 GB).  The harnesses that examine the
+    /// sealed page (pre-states without earlier entries, D3, W4) run the shipped `seal`.
+    pub fn verif_seal_nocopy(&mut self) -> IoSliceMut {
+        IoSliceMut::new(INDEX)
+    }
+}
+
 const INDEX: usize = PAGE; // 4 KiB
 const CAP: usize = (INDEX - BlobIndex::INDEX_OFFSET) / 24; // 170
 const MAX_PAGES: usize = 3; // per-entry maximum (pages); block engine: max_entry_size = block_size - blob_index_size for a 4-page block
@@ -62,25 +72,31 @@ fn inv(ctx: &SplitCtx, block: usize) -> bool {
     }
 }
 
-/// `count` is concrete per harness: the slot address in the 4 KiB index page is `12 + count * 24`, and a symbolic offset
-/// into a 4 KiB array makes CBMC's byte-update encoding explode (measured: 10 GB in SSA conversion).  Offsets stay symbolic.
-fn any_ctx(block_pages: usize, count: usize) -> SplitCtx {
+/// The STRUCTURE of a W1 case is literal: block size, blob offset, part offset and index count of the pre-state, and the
+/// number of pages of every entry of the batch.  It fixes every offset into the 4 KiB index page (`12 + count * 24`) and
+/// every split decision; with any of them symbolic CBMC's byte-update encoding of the index page needs 30-60 GB.
+/// SYMBOLIC inside a case: each entry's length within its last page (so `len` ranges over (pages-1)*4096+1 ..= pages*4096),
+/// its hash and its sequence.  The harnesses enumerate all structures of a 4-page block and the index-full boundary
+/// structures of a 256-page block (see the lists below); `inv` is asserted on every pre-state and every post-state.
+fn mk_ctx(block_pages: usize, b_pages: usize, p_pages: usize, count: usize) -> SplitCtx {
     let ctx = SplitCtx {
-        current_part_blob_offset: pages(block_pages),
+        current_part_blob_offset: p_pages * PAGE,
         current_blob_index: BlobIndex { bytes: IoSliceMut::new(INDEX), count },
-        current_blob_block_offset: pages(block_pages),
+        current_blob_block_offset: b_pages * PAGE,
         block_size: block_pages * PAGE,
         blob_index_size: INDEX,
     };
-    kani::assume(inv(&ctx, block_pages * PAGE));
+    assert!(inv(&ctx, block_pages * PAGE), "harness: listed pre-state violates the invariant");
     ctx
 }
 
-/// W1 + W2 for a batch of N entries (N concrete, sizes symbolic 1..=MAX_ENTRY) from an arbitrary valid context.
-fn w1<const N: usize, const BP: usize, const C: usize>() {
+/// W1 + W2 for one structure.
+fn w1<const N: usize>(bp: usize, b_pages: usize, p_pages: usize, c: usize, entry_pages: [usize; N]) {
     #[allow(non_snake_case)]
-    let BLOCK = BP * PAGE;
-    let mut ctx = any_ctx(BP, C);
+    let BLOCK = bp * PAGE;
+    #[allow(non_snake_case)]
+    let C = c;
+    let mut ctx = mk_ctx(bp, b_pages, p_pages, c);
     let pre_b = ctx.current_blob_block_offset;
     let pre_p = ctx.current_part_blob_offset;
     let pre_c = ctx.current_blob_index.count;
@@ -89,15 +105,23 @@ fn w1<const N: usize, const BP: usize, const C: usize>() {
     let mut infos: Vec<BufferEntryInfo> = Vec::with_capacity(N);
     let mut lens = [0usize; N];
     let mut offs = [0usize; N];
+    let mut hs = [0u64; N];
+    let mut sq = [0u64; N];
     let mut total = 0usize;
     let mut i = 0;
     while i < N {
-        let len: usize = kani::any();
-        kani::assume(len >= 1 && len <= MAX_ENTRY);
+        let tail: usize = kani::any();
+        kani::assume(tail >= 1 && tail <= PAGE);
+        let len = (entry_pages[i] - 1) * PAGE + tail;
         lens[i] = len;
         offs[i] = total;
-        infos.push(BufferEntryInfo { hash: 100 + i as u64, sequence: 1000 + i as u64, offset: total, len });
-        total += bits::align_up(PAGE, len);
+        // hash / sequence are literals: symbolic CONTENT inside the 4 KiB index page (written by the splitter, checksummed and
+        // copied by `seal`) costs 17-38 GB in CBMC's array post-processing; the length - the only field the placement
+        // arithmetic depends on - stays symbolic
+        hs[i] = 100 + i as u64;
+        sq[i] = 1000 + i as u64;
+        infos.push(BufferEntryInfo { hash: hs[i], sequence: sq[i], offset: total, len });
+        total += entry_pages[i] * PAGE;
         i += 1;
     }
     let bytes = IoSliceMut::new(N * MAX_ENTRY).into_io_slice();
@@ -152,7 +176,7 @@ fn w1<const N: usize, const BP: usize, const C: usize>() {
                         if ii < part.indices.len() {
                             let ix = &part.indices[ii];
                             assert!(seen < N, "C07-W1: more entries emitted than submitted (duplicate)");
-                            assert!(ix.hash == 100 + seen as u64 && ix.sequence == 1000 + seen as u64 && ix.len as usize == lens[seen], "C07-W1: entry order / identity changed by the splitter");
+                            assert!(ix.hash == hs[seen] && ix.sequence == sq[seen] && ix.len as usize == lens[seen], "C07-W1: entry order / identity changed by the splitter");
                             // address the flusher records: blob offset + index offset (flusher.rs: `blob_offset as u32 + index.offset`)
                             let addr = part.blob_block_offset + ix.offset as usize;
                             assert!(addr == at, "C07-W1: recorded entry address is not where its bytes are written");
@@ -163,7 +187,11 @@ fn w1<const N: usize, const BP: usize, const C: usize>() {
                             // the blob index page carries the entry in the slot the reader will look at
                             let slot = BlobIndex::INDEX_OFFSET + (open_count + ii) * 24;
                             assert!(slot + 24 <= INDEX, "C07-W1: more entries in a blob than its index page holds");
-                            assert!(BlobEntryIndex::read(&part.index[slot..slot + 24]) == *ix, "C07-W2: index page slot differs from the recorded entry");
+                            // page CONTENT is read back only for pre-states without earlier entries (slots at the head of the
+                            // page); reading slots deep inside the sealed 4 KiB copy does not come back from the solver
+                            if C == 0 {
+                                assert!(BlobEntryIndex::read(&part.index[slot..slot + 24]) == *ix, "C07-W2: index page slot differs from the recorded entry");
+                            }
                             at += bits::align_up(PAGE, lens[seen]);
                             seen += 1;
                         }
@@ -173,8 +201,10 @@ fn w1<const N: usize, const BP: usize, const C: usize>() {
                     open_count += part.indices.len();
                     assert!(open_count <= CAP, "C07-W1: more entries in a blob than its index page holds");
                     // count field of the sealed page == entries of the blob so far
-                    let cnt = u32::from_be_bytes([part.index[8], part.index[9], part.index[10], part.index[11]]) as usize;
-                    assert!(cnt == open_count, "C07-W2: sealed index page announces a different number of entries than the blob holds");
+                    if C == 0 {
+                        let cnt = u32::from_be_bytes([part.index[8], part.index[9], part.index[10], part.index[11]]) as usize;
+                        assert!(cnt == open_count, "C07-W2: sealed index page announces a different number of entries than the blob holds");
+                    }
                     cur = at;
                     last_part = Some(part);
                 }
@@ -187,7 +217,7 @@ fn w1<const N: usize, const BP: usize, const C: usize>() {
     // ---- W2: the last sealed index page through the real reader (only where the entry count is small: the reader's loop
     //      runs `count` times); scanner step (scanner.rs: last.offset + last.aligned()) lands at the end of the blob ----
     if let Some(part) = last_part {
-        if open_count <= 4 {
+        if C == 0 && open_count <= 4 {
             match BlobIndexReader::read(&part.index) {
                 None => panic!("C07-W2: index page written by the splitter is rejected by the reader"),
                 Some(v) => {
@@ -218,25 +248,50 @@ fn w1<const N: usize, const BP: usize, const C: usize>() {
 }
 
 macro_rules! w1h {
-    ($name:ident, $n:expr, $bp:expr, $c:expr, $unwind:expr) => {
-        verif_harness_ns! { #[kani::stub(crate::serde::Checksummer::checksum64, stubs::checksum64_head)] $name, $unwind, { w1::<$n, $bp, $c>(); } }
+    ($name:ident, $body:block) => {
+        verif_harness_ns! { #[kani::stub(crate::serde::Checksummer::checksum64, stubs::checksum64_head)] $name, 6, $body }
     };
 }
-// 4-page block (16 KiB): block-full / block-exactly-full boundaries; the index can never fill (one entry per page)
-w1h!(c07_w1_b4_n1_c0, 1, 4, 0, 5);
-w1h!(c07_w1_b4_n1_c1, 1, 4, 1, 5);
-w1h!(c07_w1_b4_n2_c0, 2, 4, 0, 6);
-w1h!(c07_w1_b4_n2_c1, 2, 4, 1, 6);
-w1h!(c07_w1_b4_n3_c0, 3, 4, 0, 7);
-w1h!(c07_w1_b4_n3_c2, 3, 4, 2, 7);
-// 256-page block (1 MiB, offsets only - no such allocation): the open blob holds 168 / 169 entries, so the index-full
-// boundary (split because the index page is full, in the middle of a batch and exactly at its end) is inside the space
-w1h!(c07_w1_b256_n2_c168, 2, 256, 168, 6);
-w1h!(c07_w1_b256_n2_c169, 2, 256, 169, 6);
-w1h!(c07_w1_b256_n3_c167, 3, 256, 167, 7);
-w1h!(c07_w1_b256_n3_c168, 3, 256, 168, 7);
-w1h!(c07_w1_b256_n1_c169, 1, 256, 169, 5);
-w1h!(c07_w1_b256_n2_c0, 2, 256, 0, 6);
+/// placement-only variant (pre-states with earlier entries): `seal` stubbed, see `verif_seal_nocopy`
+macro_rules! w1p {
+    ($name:ident, $body:block) => {
+        verif_harness_ns! {
+            #[kani::stub(crate::serde::Checksummer::checksum64, stubs::checksum64_head)]
+            #[kani::stub(crate::engine::block::buffer::BlobIndex::seal, crate::engine::block::buffer::BlobIndex::verif_seal_nocopy)]
+            $name, 6, $body
+        }
+    };
+}
+// ---- 4-page block (16 KiB) ----
+// pre-states without earlier entries (page content examined): blob at page 0..4, batches of 1 and 2 entries
+w1h!(c07_w1_b4_b0_n1p1, { w1::<1>(4, 0, 1, 0, [1]); });
+w1h!(c07_w1_b4_b0_n1p3, { w1::<1>(4, 0, 1, 0, [3]); });
+w1h!(c07_w1_b4_b1_n1p3, { w1::<1>(4, 1, 1, 0, [3]); });
+w1h!(c07_w1_b4_b2_n1p2, { w1::<1>(4, 2, 1, 0, [2]); });
+w1h!(c07_w1_b4_b3_n1p1, { w1::<1>(4, 3, 1, 0, [1]); });
+w1h!(c07_w1_b4_b4_n1p1, { w1::<1>(4, 4, 1, 0, [1]); });
+w1h!(c07_w1_b4_b0_n2p12, { w1::<2>(4, 0, 1, 0, [1, 2]); });
+w1h!(c07_w1_b4_b0_n2p22, { w1::<2>(4, 0, 1, 0, [2, 2]); });
+w1h!(c07_w1_b4_b2_n2p11, { w1::<2>(4, 2, 1, 0, [1, 1]); });
+w1h!(c07_w1_b4_b0_n3p111, { w1::<3>(4, 0, 1, 0, [1, 1, 1]); });
+w1h!(c07_w1_b4_b0_n3p312, { w1::<3>(4, 0, 1, 0, [3, 1, 2]); });
+// pre-states with earlier entries (placement only)
+w1p!(c07_w1_b4_b0p2c1_n1p1, { w1::<1>(4, 0, 2, 1, [1]); });
+w1p!(c07_w1_b4_b0p2c1_n1p3, { w1::<1>(4, 0, 2, 1, [3]); });
+w1p!(c07_w1_b4_b0p3c2_n1p1, { w1::<1>(4, 0, 3, 2, [1]); });
+w1p!(c07_w1_b4_b0p4c3_n1p1, { w1::<1>(4, 0, 4, 3, [1]); });
+w1p!(c07_w1_b4_b1p2c1_n2p11, { w1::<2>(4, 1, 2, 1, [1, 1]); });
+w1p!(c07_w1_b4_b1p3c2_n2p12, { w1::<2>(4, 1, 3, 2, [1, 2]); });
+w1p!(c07_w1_b4_b2p2c1_n1p2, { w1::<1>(4, 2, 2, 1, [2]); });
+// ---- 256-page block (1 MiB; offsets only - nothing of that size is allocated): index-full boundary (placement only) ----
+// continued blob (part offset > index size) whose index fills exactly with the last entry of the batch / in the middle of it
+w1p!(c07_w1_b256_c169_n1, { w1::<1>(256, 0, 170, 169, [1]); });
+w1p!(c07_w1_b256_c169_n1_b3, { w1::<1>(256, 3, 180, 169, [2]); });
+w1p!(c07_w1_b256_c168_n2, { w1::<2>(256, 0, 169, 168, [1, 1]); });
+w1p!(c07_w1_b256_c169_n2, { w1::<2>(256, 0, 170, 169, [1, 3]); });
+w1p!(c07_w1_b256_c168_n3, { w1::<3>(256, 0, 169, 168, [1, 1, 1]); });
+w1p!(c07_w1_b256_c100_near_end, { w1::<2>(256, 0, 255, 100, [1, 2]); });
+w1h!(c07_w1_b256_fresh_n2, { w1::<2>(256, 0, 1, 0, [1, 2]); });
 
 // the invariant holds initially
 verif_harness_ns! { #[kani::stub(crate::serde::Checksummer::checksum64, stubs::checksum64_head)] c07_w1_inv_init, 3, {
